@@ -11,7 +11,20 @@
 (*   rows, columns, used_elements  of the distributed matrix                 *)
 (* Block (k, l) of entry (d, e) is component (k-1)*3 + l of the module's     *)
 (* value function; the scalar matrix is component 1.                         *)
-EXTENDS SynchMat, Json
+(*                                                                           *)
+(* Every rank numbers its row dofs and its column dofs locally by a          *)
+(* renumbering kind (module Renum; SQUARE: the same kind for rows and        *)
+(* columns), so the row and column mirrors handed to LAFEM::MatrixMirror     *)
+(* (gather / scatter_axpy of the buffer matrices) are NOT monotone in        *)
+(* general.  Per-rank data are listed in the local numbering: rows in local  *)
+(* row order, the entries of a row in ascending LOCAL column order (the CSR  *)
+(* layout of the local matrix).  Besides the all-identity numbering only     *)
+(* numberings with a non-monotone row or column mirror are emitted.          *)
+EXTENDS SynchMat, Json, Renum
+
+CONSTANT RENK            \* largest renumbering kind (0: ascending local numbering only)
+VARIABLES rren, cren     \* rank -> renumbering kind of the row / column dofs
+gvars == <<vars, rren, cren>>
 
 Types == {"s", "b22", "b23"}
 BH(t) == IF t = "s" THEN 1 ELSE 2
@@ -42,10 +55,16 @@ ATY0(t, r, e, l) == LET D == ColRows(r, e) IN SumOver(D, [d \in D |-> SumOver(1.
 ATY(t, e, l) == LET S == ColSharers(e) IN SumOver(S, [s \in S |-> ATY0(t, s, e, l)])
 
 Sorted(S) == [i \in 1..Cardinality(S) |-> CHOOSE d \in S : Cardinality({e \in S : e < d}) = i - 1]
-RowsOf(r) == Sorted(rd[r])
-ColsOf(r) == Sorted(cd[r])
+RowsOf(r) == RnOrder(rd[r], rren[r])
+ColsOf(r) == RnOrder(cd[r], cren[r])
+\* the entries of local row d in ascending local column order
+RowSeq(r, d) == SelectSeq(ColsOf(r), LAMBDA e : e \in RowCols(r, d))
 PerRow(r, Op(_, _)) == [i \in 1..Cardinality(rd[r]) |-> LET d == RowsOf(r)[i] IN
-                          LET E == Sorted(RowCols(r, d)) IN [j \in 1..Len(E) |-> Op(d, E[j])]]
+                          LET E == RowSeq(r, d) IN [j \in 1..Len(E) |-> Op(d, E[j])]]
+RMir(r, s) == IF s # r /\ rd[r] \cap rd[s] # {} THEN RnMirror(RowsOf(r), rd[r] \cap rd[s]) ELSE <<>>
+CMir(r, s) == IF s # r /\ cd[r] \cap cd[s] # {} THEN RnMirror(ColsOf(r), cd[r] \cap cd[s]) ELSE <<>>
+NonMono == \E r, s \in Ranks : ~RnMonotone(RMir(r, s)) \/ ~RnMonotone(CMir(r, s))
+AllIdentity == \A r \in Ranks : rren[r] = 0 /\ cren[r] = 0
 Six(Op(_, _)) == [c \in 1..6 |-> Op(((c - 1) \div 3) + 1, ((c - 1) % 3) + 1)]
 RowVec(t, r, Op(_, _)) == [i \in 1..Cardinality(rd[r]) |-> [k \in 1..BH(t) |-> Op(RowsOf(r)[i], k)]]
 ColVec(t, r, Op(_, _)) == [j \in 1..Cardinality(cd[r]) |-> [l \in 1..BW(t) |-> Op(ColsOf(r)[j], l)]]
@@ -56,6 +75,8 @@ CountsC == [r \in Ranks |-> [j \in 1..Cardinality(cd[r]) |-> Cardinality(ColShar
 Case ==
   [kind |-> "mat", nr |-> NR, nd |-> ND, nc |-> NC, square |-> SQUARE, pv |-> pv,
    rdofs |-> [r \in Ranks |-> RowsOf(r)], cdofs |-> [r \in Ranks |-> ColsOf(r)],
+   rren |-> [r \in Ranks |-> rren[r]], cren |-> [r \in Ranks |-> cren[r]], nonmono |-> NonMono,
+   rmir |-> [r \in Ranks |-> [s \in Ranks |-> RMir(r, s)]], cmir |-> [r \in Ranks |-> [s \in Ranks |-> CMir(r, s)]],
    rcount |-> CountsR, ccount |-> CountsC,
    pat |-> [r \in Ranks |-> PerRow(r, LAMBDA d, e : e)],
    a |-> [r \in Ranks |-> PerRow(r, LAMBDA d, e : Six(LAMBDA k, l : BVal(r, d, e, k, l)))],
@@ -72,10 +93,21 @@ Case ==
    grows |-> Cardinality(RowOwned), gcols |-> Cardinality(ColOwned),
    gnnz |-> SumOver(Ranks, [r \in Ranks |-> Cardinality(Pat(r))])]
 
-GenNext == UNCHANGED vars
-GenSpec == Init /\ [][GenNext]_vars
+GenInit ==
+  /\ Init
+  /\ rren \in [Ranks -> 0..RENK]
+  /\ IF SQUARE THEN cren = rren ELSE cren \in [Ranks -> 0..RENK]
+  /\ \A r \in Ranks : RnCanon(rd[r], rren[r]) /\ RnCanon(cd[r], cren[r])
+  /\ (AllIdentity \/ NonMono)
+GenNext == UNCHANGED gvars
+GenSpec == GenInit /\ [][GenNext]_gvars
 Emit == PrintT(ToJson(Case))
 \* sanity laws of the expected values themselves
+\* (0) local numberings are permutations, both sides of a mirror pair address the same global dof, a CSR row lists every entry once
+LawRenum == \A r \in Ranks :
+  /\ RnIsPerm(RowsOf(r), rd[r]) /\ RnIsPerm(ColsOf(r), cd[r])
+  /\ \A s \in Ranks \ {r} : RnMirrorsAgree(RowsOf(r), RowsOf(s), rd[r] \cap rd[s]) /\ RnMirrorsAgree(ColsOf(r), ColsOf(s), cd[r] \cap cd[s])
+  /\ \A d \in rd[r] : Len(RowSeq(r, d)) = Cardinality(RowCols(r, d))
 \* (1) a dof held by one rank only: the type-1 entry is the local entry
 LawUnshared == \A r \in Ranks : \A p \in Pat(r) : (\A s \in Ranks \ {r} : p \notin Pat(s)) => Conv1(r, p, 1, 1) = BVal(r, p[1], p[2], 1, 1)
 \* (2) all sharers of an entry see the same type-1 value
